@@ -115,6 +115,12 @@ func (c *caseGen) step() {
 			p = Pick(r, cand)
 		}
 		na := 10 + r.Intn(6)
+		switch r.Intn(4) {
+		case 0: // only the port changes
+			na = 100 + c.addrOf[p.sess]%100
+		case 1: // only the IP changes
+			na = 200 + c.addrOf[p.sess]%100
+		}
 		c.op("dlv S %d %s none", na, p.ref)
 		// only an accepted packet moves the session; the generator does not need to know
 		if r.Chance(1, 2) {
